@@ -35,6 +35,7 @@ _REQ_W: Optional[int] = None
 _RES_R: Optional[int] = None
 _ZPID: Optional[int] = None
 _CACHE: Dict[str, Any] = {}
+_NEW: Dict[str, Any] = {}
 STATS = {"requests": 0, "forks": 0}
 
 
@@ -130,8 +131,8 @@ def ask(spec: Dict[str, Any]) -> Any:
     hit = _CACHE.get(key)
     if hit is not None:
         return hit
-    if _ZPID is None or _ZPID_OWNER != os.getpid():
-        raise GoldenError("golden zygote not started in this process")
+    if _ZPID is None:
+        raise GoldenError("golden zygote not started in this process (or its parent)")
     STATS["requests"] += 1
     assert _REQ_W is not None and _RES_R is not None
     _write_msg(_REQ_W, key.encode())
@@ -144,4 +145,16 @@ def ask(spec: Dict[str, Any]) -> Any:
     if len(_CACHE) > 100_000:
         _CACHE.clear()
     _CACHE[key] = res["result"]
+    _NEW[key] = res["result"]
     return res["result"]
+
+
+def export_new() -> Dict[str, Any]:
+    """Cache entries added in this process since it was forked (handed back to the worker)."""
+    return dict(_NEW)
+
+
+def import_new(entries: Dict[str, Any]) -> None:
+    if len(_CACHE) > 100_000:
+        _CACHE.clear()
+    _CACHE.update(entries)
